@@ -31,7 +31,7 @@ COMPONENTS = {"real": ["ECAgent.Core.Model.random", "Environment.get_random_agen
                        "ECAgent.Batching.batch_run with the real multiprocessing.Pool (cross-environment arm)"],
               "stub": ["the stochastic model and its systems are harness workloads (props/chaos.py); global random / "
                        "numpy.random are perturbed, not replaced"]}
-PROBES = ["perturb_inside_timestep", "perturb_between_timesteps", "other_model_same_seed_interleaved",
+PROBES = ["search_driver", "search_driver_variance_mode", "perturb_inside_timestep", "perturb_between_timesteps", "other_model_same_seed_interleaved",
           "filtered_pick_2plus_candidates", "reseed", "consume", "np_seed", "np_rand", "new_model", "step_other",
           "string_seed", "spatial_world", "environment_handed_to_another_model", "crash_other"]
 TECHNIQUE = "deterministic simulation: seeded perturbation schedule over every ambient randomness source (global RNGs, other models, hash seed, worker process) with a single-digest oracle"
@@ -88,7 +88,11 @@ def generate(rng, tier):
         # an environment populated under a builder model and then handed to the run model (Environment.set_model)
         handover = {"builder_seed": gen_seed(rng), "other_builder_seed": gen_seed(rng), "pre_queries": rng.randint(0, 6),
                     "world": rng.choice(["plain", "grid", "space"]), "agents": rng.randint(2, 9), "queries": rng.randint(2, 8)}
-    return {"seed": seed, "cfg": cfg, "alt_cfg": alt, "others": others, "perturb": perturb, "pre": pre, "handover": handover}
+    sc = {"seed": seed, "cfg": cfg, "alt_cfg": alt, "others": others, "perturb": perturb, "pre": pre, "handover": handover}
+    if rng.random() < 0.2:
+        # the same (seed, cfg) built and stepped by the package's own parameter search, scored on the trajectory
+        sc["search"] = {"mode": rng.randrange(8), "reps": rng.randint(2, 3), "second_seed": rng.random() < 0.5}
+    return sc
 
 
 def handover_trace(seed_t, seed_b, pre, h):
@@ -253,10 +257,45 @@ def execute(sc, ctx):
                   f"a model (seed={o['seed']!r}) stepped in between differs from its undisturbed run")
         if o["seed"] == seed and o["key"] == key:
             ctx.check(do == d_ref, "same-seed-different-trajectory", "two live models with equal seed and cfg diverged")
+    if sc.get("search"):
+        search_arm(sc, ctx, seed, cfg)
     ctx.nontrivial = picks >= 1 and shuffles >= 1 and (fired["inside"] + fired["between"]) >= 1
     ctx.sig = [cfg["world"], sorted(cfg["systems"]), sorted(set(fired["kinds"])), fired["inside"] > 0, fired["between"] > 0,
                len(others)]
     ctx.state([cfg["world"], sorted(cfg["systems"]), sorted(set(fired["kinds"]))])
+
+
+def _trajectory_score(model):
+    return float(int(model.digest()[:12], 16))       # < 2**48: exact as a double
+
+
+def search_arm(sc, ctx, seed, cfg):
+    """grid_search as the driver: every repetition of every evaluated seed follows the hand-built model's trajectory."""
+    import ECAgent.Batching as B
+    g = sc["search"]
+    key2 = json.dumps(dict(cfg, driver_draws=False), sort_keys=True)      # (grid_search is the driver here)
+    seeds = [seed] + ([seed + 1] if g["second_seed"] and isinstance(seed, int) and not isinstance(seed, bool) else [])
+    want = {repr(s_): _trajectory_score_of(s_, key2) for s_ in seeds}
+    mode = B.ScoreMode(int(g["mode"]))
+    ctx.fault("ambient.search_driver")
+    ctx.probe("search_driver_variance_mode" if mode.name.endswith("VARIANCE") else "search_driver")
+    st, val = ctx.call(B.grid_search, chaos.ChaosModel, {"seed": list(seeds), "cfg": key2}, _trajectory_score,
+                       processes=1, repetitions=int(g["reps"]), mode=mode)
+    if st != "ok":
+        ctx.fail("search-driver-raised", f"grid_search over ChaosModel (mode {mode.name}) raised {val!r}")
+    _, results = val
+    for r_ in results:
+        w_ = want.get(repr(r_.get("seed")))
+        ctx.check(w_ is not None and list(r_.get("records", [])) == [w_] * int(g["reps"]), "trajectory-depends-on-driver",
+                  lambda: f"grid_search mode={mode.name} seed={r_.get('seed')!r}: repetitions scored {r_.get('records')}, the "
+                          f"model built by hand with that seed scores {w_}")
+    ctx.event("search", mode.name, len(results))
+
+
+def _trajectory_score_of(seed, key):
+    m = chaos.ChaosModel(seed, key)
+    m.run_all()
+    return _trajectory_score(m)
 
 
 # ------------------------------------------------------------------------------------------------------------------
